@@ -256,7 +256,7 @@ func (m *model) walk(us []fx.EUse) {
 		case "class-mixed":
 			m.evs = append(m.evs, event{Kind: "elem", Tag: "div", HasClass: true, Classes: classAttr([]cls{{"x", true}, {cname(u.A, u.N), true}, {"y", true}, {cname(u.B, u.N), true}})})
 		case "once-block":
-			k := u.A % 2
+			k := u.A % 4
 			if !m.once[k] {
 				m.once[k] = true
 				m.evs = append(m.evs, event{Kind: "once", ID: fmt.Sprintf("ob%d", u.A)})
@@ -650,7 +650,7 @@ func genUses(depth, max int) *rapid.Generator[[]fx.EUse] {
 	return rapid.SliceOfN(rapid.Custom(func(t *rapid.T) fx.EUse {
 		u := fx.EUse{
 			Kind: rapid.SampledFrom(kinds).Draw(t, "kind"),
-			A:    rapid.IntRange(0, 2).Draw(t, "a"),
+			A:    rapid.IntRange(0, 3).Draw(t, "a"),
 			B:    rapid.IntRange(0, 2).Draw(t, "b"),
 			N:    rapid.SampledFrom([]int{1, 1, 2, 50}).Draw(t, "n"),
 			S:    rapid.SampledFrom([]string{"x", "y", "a'b", "</script>", "é"}).Draw(t, "s"),
@@ -674,7 +674,7 @@ func useKeys(us []fx.EUse, add func(thing, kind string)) {
 		case strings.HasPrefix(u.Kind, "class-"):
 			add(cname(u.A, u.N), u.Kind)
 		case u.Kind == "once-block":
-			add(fmt.Sprintf("h%d", u.A%2), u.Kind)
+			add(fmt.Sprintf("h%d", u.A%4), u.Kind)
 		case u.Kind == "once-fixed":
 			add("hf", u.Kind)
 		}
